@@ -6,6 +6,7 @@ import json, os, shutil, subprocess, sys, time
 def sh(cmd, cwd=None):
     p = subprocess.run(cmd, shell=True, cwd=cwd, capture_output=True, text=True)
     return p.returncode, p.stdout + p.stderr
+REPO = os.environ.get("SEED_REPO", "/repo"); VERIF = os.environ.get("SEED_VERIF", "/verif")
 name = sys.argv[1]; args = sys.argv[2:]
 pid = name.split('-')[0]; checks = [pid]; tier = "quick"; note = None
 while args:
@@ -15,21 +16,21 @@ while args:
     elif a == "--note": note = args.pop(0)
 d = f"/verif/seeded/{name}"
 meta = json.load(open(f"{d}/meta.json"))
-rc, o = sh("git diff --quiet", cwd="/repo"); assert rc == 0, "/repo is dirty"
-rc, o = sh(f"git apply {d}/patch.diff", cwd="/repo"); assert rc == 0, o
+rc, o = sh("git diff --quiet", cwd=REPO); assert rc == 0, REPO + " is dirty"
+rc, o = sh(f"git apply {d}/patch.diff", cwd=REPO); assert rc == 0, o
 try:
     for c in checks:
-        ev = f"/verif/evidence/{c}.json"; bak = ev + ".bak"
+        ev = f"{VERIF}/evidence/{c}.json"; bak = ev + ".bak"
         if os.path.exists(ev): shutil.copy(ev, bak)
-        t0 = time.time(); rc, o = sh(f"./check {c} {tier}", cwd="/verif"); dt = time.time() - t0
+        t0 = time.time(); rc, o = sh(f"./check {c} {tier}", cwd=VERIF); dt = time.time() - t0
         if os.path.exists(bak): shutil.move(bak, ev)
         sig = [l for l in o.splitlines() if l.startswith("FAILURE sig=")]
         r = {"rc": rc, "verdict": {0: "MISSED", 1: "CAUGHT"}.get(rc, "INCONCLUSIVE"),
              "signature": sig[0][len("FAILURE sig="):] if sig else None, "wall_s": round(dt, 1),
-             "tail": "\n".join(o.splitlines()[-6:]), "evaluated_in": "/repo with the change applied, checks of /verif"}
+             "tail": "\n".join(o.splitlines()[-6:]), "evaluated_in": (f"{REPO} with the change applied, checks of {VERIF}" if REPO == "/repo" else f"scratch worktree {REPO} of /repo HEAD with the change applied, checks run from a copy of /verif's working tree ({VERIF})")}
         meta.setdefault("checks", {})[c] = r
         print(f"{name} {c}: {r['verdict']} sig={r['signature']} ({r['wall_s']}s)")
 finally:
-    sh("git checkout -- .", cwd="/repo")
+    sh("git checkout -- .", cwd=REPO)
 if note: meta["caught_after_strengthening"] = note
 json.dump(meta, open(f"{d}/meta.json", "w"), indent=1)
